@@ -84,7 +84,7 @@ def oracle_c07(obs: dict, params: dict) -> list[tuple[str, str]]:
                 v.append((f"C07:wrong-packet:{kind}", f"caller {c['i']} for {c['frame']!r} was given {r[1]!r}"))
             elif (
                 spec.get("wfr") is True
-                and params.get("qos_mode") is False
+                and (params.get("qos_mode") is False or (params.get("qos_mode") is None and c["frame"].split()[5] in ("0006", "0404", "0418", "1FC9")))
                 and Q.reply_for(c["frame"], gwy)
                 and r[1].strip() in (c["frame"].strip(), wire(c["frame"], gwy).strip())
             ):
